@@ -200,8 +200,44 @@ class MayRaise:
                 return t not in (UNK, prim("none")) and t[0] not in ("opt", "dictget", "typevar")
             self.flows[fi.qualname] = FactFlow(fi.node, ival=lambda e, facts, fi=fi: self.ival(e, facts, fi), nn_call=nn,
                                                ret_nonneg=lambda call, i, fi=fi: self.ret_component_nonneg(call, i, fi),
-                                               init_facts=self.param_facts(fi))
+                                               init_facts=self.param_facts(fi), pred_inline=lambda call, fi=fi: self.predicate_body(call, fi))
         return self.flows[fi.qualname]
+
+    def predicate_body(self, call: ast.Call, fi: FuncInfo, depth: int = 0) -> Optional[ast.expr]:
+        """`helper(a, b)` where helper is a module-level function whose body is one `return <expr>`: that expression with the
+        parameters replaced by the (side-effect free) arguments"""
+        import copy
+        if not isinstance(call.func, ast.Name) or call.keywords and any(k.arg is None for k in call.keywords):
+            return None
+        q = self.m.resolve_name(fi.module, call.func.id)
+        hf = self.m.functions.get(q) if q else None
+        if hf is None or hf.cls is not None or isinstance(hf.node, ast.Lambda) or hf.node.decorator_list or hf is fi:
+            return None
+        body = [s_ for s_ in hf.node.body if not (isinstance(s_, ast.Expr) and isinstance(s_.value, ast.Constant))]
+        if len(body) != 1 or not isinstance(body[0], ast.Return) or body[0].value is None:
+            return None
+        a = hf.node.args
+        if a.vararg or a.kwarg or any(isinstance(x, ast.Starred) for x in call.args):
+            return None
+        ps = [p.arg for p in a.posonlyargs + a.args + a.kwonlyargs]
+        bound = dict(zip([p.arg for p in a.posonlyargs + a.args], call.args))
+        bound.update({k.arg: k.value for k in call.keywords if k.arg in ps})
+        if set(bound) != set(ps):
+            return None
+        if any(isinstance(x, (ast.Call, ast.Lambda, ast.NamedExpr, ast.Await)) for v in bound.values() for x in ast.walk(v)):
+            return None
+
+        class S(ast.NodeTransformer):
+            def visit_Name(self, n: ast.Name):
+                if n.id in bound and isinstance(n.ctx, ast.Load):
+                    return copy.deepcopy(bound[n.id])
+                return n
+        out = S().visit(copy.deepcopy(body[0].value))
+        # names of the helper's module must mean the same thing at the call site
+        if hf.module != fi.module:
+            return None
+        ast.fix_missing_locations(ast.copy_location(out, call))
+        return out
 
     def param_facts(self, fi: FuncInfo) -> FrozenSet[Fact]:
         """Facts about the parameters of a private module-level helper that hold at every call site in the package (see
